@@ -346,6 +346,17 @@ def _run(ctx):
             if d in (1, 2, 4):
                 vecs.append(("zero", [F(0)] * d))
             vecs.append(("identity", [F(int(i == 0)) for i in range(d)]))
+            # the sign is decided by the SIGN of the two real coefficients, however small next to the other one
+            tiny = F(1, 2 ** 31)
+            if d % 2 == 0:
+                vecs.append(("tiny-negative-nyquist", [F(1) - tiny if i % 2 == 0 else F(1) + tiny for i in range(d)]))
+                vecs.append(("tiny-positive-nyquist", [F(1) + tiny if i % 2 == 0 else F(1) - tiny for i in range(d)]))
+                vecs.append(("tiny-positive-dc", [tiny + (F(1) if i % 2 == 0 else F(-1)) for i in range(d)]))
+                vecs.append(("tiny-negative-dc", [-tiny + (F(1) if i % 2 == 0 else F(-1)) for i in range(d)]))
+            elif d >= 3:
+                w = [F(1), F(-1)] + [F(0)] * (d - 2)
+                vecs.append(("tiny-positive-dc", [x + tiny for x in w]))
+                vecs.append(("tiny-negative-dc", [x - tiny for x in w]))
             for kind, v in vecs:
                 fv = fl(v)
                 tok = common.qvec(fv)
